@@ -150,23 +150,28 @@ def _p_norm(p: float, critical_pairs: list = []):
     result = 0.0
     for l in critical_pairs:
         for [[x0, y0], [x1, y1]] in zip(l, l[1:]):
-            if y0 == y1:
-                # horizontal line segment
-                result += (np.abs(y0) ** p) * (x1 - x0)
+            # the integrand is |f|^p, so only the absolute values of the
+            # endpoint ordinates enter; lo <= hi
+            lo, hi = sorted((abs(float(y0)), abs(float(y1))))
+            if hi == 0.0:
                 continue
-            # slope is well-defined
-            slope = (y1 - y0) / (x1 - x0)
-            b = y0 - slope * x0
-            # segment crosses the x-axis
+            dx = x1 - x0
+            # segment crosses the x-axis: |f| falls from |y0| to 0, then rises to |y1|
             if (y0 < 0 and y1 > 0) or (y0 > 0 and y1 < 0):
-                z = -b / slope
-                ev_x1 = (slope * x1 + b) ** (p + 1) / (slope * (p + 1))
-                ev_x0 = (slope * x0 + b) ** (p + 1) / (slope * (p + 1))
-                ev_z = (slope * z + +b) ** (p + 1) / (slope * (p + 1))
-                result += np.abs(ev_x1 + ev_x0 - 2 * ev_z)
-            # segment does not cross the x-axis
+                result += (
+                    dx * hi**p * (hi + lo * (lo / hi) ** p) / ((p + 1) * (lo + hi))
+                )
+                continue
+            # segment does not cross the x-axis: |f| runs linearly from lo to hi and
+            # its integral is dx * (hi^(p+1) - lo^(p+1)) / ((p+1) * (hi - lo))
+            s = (hi - lo) / hi
+            if s == 0.0:
+                # horizontal line segment
+                result += hi**p * dx
+            elif lo == 0.0:
+                result += hi**p * dx / (p + 1)
             else:
-                ev_x1 = (slope * x1 + b) ** (p + 1) / (slope * (p + 1))
-                ev_x0 = (slope * x0 + b) ** (p + 1) / (slope * (p + 1))
-                result += np.abs(ev_x1 - ev_x0)
+                # 1 - (lo/hi)^(p+1), evaluated without cancellation for small s
+                gap = -np.expm1((p + 1) * np.log1p(-s))
+                result += hi**p * dx * gap / ((p + 1) * s)
     return (result) ** (1.0 / p)
